@@ -13,58 +13,58 @@ T_E = "bounded-exhaustive enumeration of the input space, every case executed on
 NOTE = "Trusted: the reference lexer/parser/interpreter/MD5-scheme/exact-Fraction partition in mc/ref (self-checked at setup by round trip, RFC 1321 answers and brute force). "
 CHECKS = {
     "C01": (MC, "explicit-state BFS over evaluator histories (real objects, canonical state = model + implementation fingerprint) + exhaustive product of interpreter-process environments",
-            "BFS to a fixpoint over new/recompile/call histories on 2 (thorough 3) evaluator slots and 5 texts: every call equals a fresh evaluator and the reference scheme, and every probe table is unchanged after every transition; the same 10k-row assignment transcript is recomputed from text in child interpreters for PYTHONHASHSEED x locale x PYTHONUTF8 x cwd x -O (16 quick / 137 thorough, incl. fast clock, clock offset, decimal context, warnings-as-errors, recursion limit, GC off, junk values for every environment variable the library mentions) and must be identical; deep cyclic recompile histories (period up to 300 / 513 texts), bulk histories (70 000 / 300 000 units, recompile, same units again) and twin / fingerprint-collision pairs are replayed against the reference scheme.",
+            "BFS to a fixpoint over new/recompile/call histories on 2 (thorough 3) evaluator slots and 5 texts: every call equals a fresh evaluator and the reference scheme, and every probe table is unchanged after every transition; the same 10k-row assignment transcript is recomputed from text in child interpreters for PYTHONHASHSEED x locale x PYTHONUTF8 x cwd x -O (16 quick / 137 thorough, incl. fast clock, clock offset, decimal context, warnings-as-errors, recursion limit, GC off, junk values for every environment variable the library mentions) and must be identical; deep cyclic recompile histories (period up to 300 / 513 texts), bulk histories (70 000 / 300 000 units, recompile, same units again), ladders of 1..32 (96) consecutive rejected recompiles, stack exhaustion injected at every depth of a compile, fleets of live evaluators with few descriptors, clones made with copy / deepcopy, and ~130 twin / fingerprint-collision pairs (32..48-bit truncations, lossy encodings, normalisations, token kinds, layout) are replayed against the reference scheme.",
             NOTE + "Not covered: other platforms / Python versions, locales not installed.", "3/C01"),
     "C02": (MC, T_E,
-            "Every conditional shape with <=6 (thorough <=8) predicates x every truth assignment, every boolean tree with <=4 (<=5) atoms in three parenthesisations, every operator x operand form x literal kind x boundary value, and the operator-pair cross product are compiled by the real pipeline and evaluated; each result must equal the reference interpreter's selected return statement or the unroutable error. Complete inside the stated bounds.",
+            "Every conditional shape with <=6 (thorough <=8) predicates x every truth assignment, every boolean tree with <=4 (<=5) atoms in three parenthesisations, every operator x operand form x literal kind x boundary value, the operator-pair cross product, mixed boolean runs of up to 199 operators with one bracketed sub-expression and guarded comparisons whose early evaluation would raise are compiled by the real pipeline and evaluated; each result must equal the reference interpreter's selected return statement or the unroutable error. Complete inside the stated bounds.",
             NOTE + "Not covered: conditionals beyond the size bound.", "3/C02"),
     "C03": (MC, "exhaustive weight-vector x hash-position grid driven through the compiled experiment via an MD5 seam, exact rational partition as oracle",
-            "All vectors of W^n (n<=3, thorough n<=4; W has 10 int/decimal weights from 1e-9 to 1e9 incl. 0) and 85 long-vector families x (extremes, +-3 grid points around every exact boundary, a coarse uniform grid) with the first 32 digest bits substituted, plus real ids; exact equality where binary64 is exact, one grid point of slack elsewhere, zero weights never, wide groups reachable.",
+            "All vectors of W^n (n<=3, thorough n<=4; W has 10 int/decimal weights from 1e-9 to 1e9 incl. 0) and 115 long-vector families (up to 256 groups) x (extremes, +-3 grid points around every exact boundary, a coarse uniform grid) with the first 32 digest bits substituted, plus real ids; exact equality where binary64 is exact, one grid point of slack elsewhere, zero weights never, wide groups reachable.",
             NOTE + "The seam replaces hashlib.md5 as seen by the binning module (effectiveness measured). Not covered: all 2^32 positions per vector.", "3/C03"),
     "C04": ("exploration", "exhaustive sweep of a finite configuration grid with a chi-square oracle (goodness of fit and independence at 1e-9)",
-            "Deterministic id populations (8 families x offsets x salts x weight vectors; 20k ids quick, 200k thorough) through compiled experiments with the DSL salt clause; chi-square GOF per configuration and independence per pair of distinct salts.",
+            "Deterministic id populations (8 families x offsets x salts x weight vectors; 20k ids quick, 200k thorough) through compiled experiments with the DSL salt clause; chi-square GOF per configuration and independence per pair of distinct salts, including every group of salts that a tidying step would identify (edge blanks, case, NFC / NFKC forms, numeric spellings, doubled template escapes).",
             "Statistical oracle: deviations below the 1e-9 critical value are invisible here (C03 decides boundaries exactly). Own regularised-gamma routine checked against scipy values.", "3/C04"),
     "C05": (MC, T_E,
-            "Every string of length <=2 (thorough <=3) over a 12-character literal alphabet plus 47 named contents, 17 integers to 1e30 and 22 decimals, in every literal position (group, left/right operand, tuple member, nested member, salt), both quote styles, evaluated on the literal and its minimally different neighbours; branch taken iff Python == on the exact value, returned group equal in value and type.",
+            "Every string of length <=2 (thorough <=3) over a 12-character literal alphabet plus 47 named contents, 17 integers to 1e30 and 22 decimals, in every literal position (group, left/right operand, tuple member, nested member, salt), both quote styles, evaluated on the literal and its minimally different neighbours; tuple literals shaped like the records of the syntax-tree nodes, branch pairs whose labels print alike, comment-looking and near-identical literals recompiled onto one evaluator; branch taken iff Python == on the exact value, returned group equal in value and type.",
             NOTE + "Contents not expressible in the DSL (newline, both quotes) are counted and skipped.", "3/C05"),
     "C06": (MC, "bounded-exhaustive token-level mutation + LR error-cell enumeration + short character strings, each text classified by an independent recogniser and fed to the real entry points",
-            "All depth-1 mutations (delete, duplicate, swap, replace by / insert each of 31 lexemes, 21 illegal characters spaced and glued, prefix/suffix junk, concatenated definitions) of 12 (thorough 16) base programs, depth 2 on small bases (thorough), every string of <=3 (<=4) characters embedded at three positions and one text per error cell of the implementation's own LR table; a text both readings of the reference reject must make ExperimentEvaluator / parse_source / generate_code fail.",
+            "All depth-1 mutations (delete, duplicate, swap, replace by / insert each of 31 lexemes, 21 illegal characters spaced and glued, prefix/suffix junk, concatenated definitions) of 12 (thorough 16) base programs, depth 2 on small bases (thorough), comment delimiters of unusual shape wrapped around stretches of tokens, rejected texts given to recompile() that collide with the current text under crc32 / length+sum or equal it after white-space or case normalisation, every text also after poison texts, every string of <=3 (<=4) characters embedded at three positions and one text per error cell of the implementation's own LR table; a text both readings of the reference reject must make ExperimentEvaluator / parse_source / generate_code fail.",
             NOTE + "Texts the reference finds ambiguous (unterminated / nested comments, non-ASCII outside strings, keyword-glue) are never alarmed on.", "3/C06"),
     "C07": (MC, T_E,
-            "48-identifier pool (keyword-prefixed, underscore, upper-case, helper-like names) in every identifier position (singles, ordered pairs, thorough triples), all role patterns of three fields, identifiers and tuples inside tuples to depth 3, one program per size (chains to 60, nesting to 12, 64 groups, 60-atom boolean chains) and every still-grammatical token mutant; construction must succeed and evaluation end with the reference's group or the unroutable error. Python reserved words / helper names are a recorded known finding with differential attribution.",
+            "48-identifier pool (keyword-prefixed, underscore, upper-case, helper-like names) in every identifier position (singles, ordered pairs, thorough triples), all role patterns of three fields, identifiers and tuples inside tuples to depth 3, one program per size (chains to 60, nesting to 12, 64 groups, 60-atom boolean chains) every still-grammatical token mutant, the sentences written with every ASCII white-space character between the tokens, after poison texts, and in 6 host environments (-O/-OO, -bb, -X dev, DEBUG logging, few descriptors, junk environment); construction must succeed and evaluation end with the reference's group or the unroutable error. Python reserved words / helper names are a recorded known finding with differential attribution.",
             NOTE + "Known findings never hide a different violation: the renamed program must pass.", "3/C07"),
     "C08": (MC, "exhaustive trivia placement (every gap x every trivia item, pairs, two gaps) + side-by-side run of the real two-state lexer and the reference tokenizer on every short lexeme/character string",
-            "For 12 (16) base programs every gap x 29 trivia items glued and spaced (thorough: all ordered pairs of items, two gaps at once), whitespace reshaping inside `else if` / `not in`; AST equality with the base and equal evaluator outcomes; 177k lexeme sequences (n<=5; thorough n<=6) and all character strings of length <=3 (<=4) compared token by token.",
+            "For 12 (16) base programs every gap x 29 trivia items glued and spaced (thorough: all ordered pairs of items, two gaps at once), whitespace reshaping inside `else if` / `not in`; AST equality with the base and equal evaluator outcomes, also after poison texts (unterminated comments, errors) and when recompiled onto an evaluator that holds a layout twin; 177k lexeme sequences (n<=5; thorough n<=6) and all character strings of length <=3 (<=4) compared token by token.",
             NOTE + "Nested / unterminated block comments are outside the property and skipped.", "3/C08"),
     "C09": (MC, "exhaustive metamorphic pairs over base programs x ids x transformations, differential oracle on the real evaluators",
-            "56 base programs (all shapes with <=3 predicates with multi-group returns, 1-4 splitters, salts) x 64 ids x {every undeclared keyword argument x value, rename, every splitter permutation, every call keyword order, every pair of inputs routed to the same return, each declared field omitted, other salt}.",
+            "56 base programs (all shapes with <=3 predicates with multi-group returns, 1-4 splitters, salts) x ~250 ids (realistic, crc32-colliding, near-twins under strip / case / NFC / NFKC / numeric spelling, tuples / lists / dicts / bytes / Fractions; thorough: every string <=3 over 14 hostile characters) x {every undeclared keyword argument x value, rename, every splitter permutation, every call keyword order, every pair of inputs routed to the same return, each declared field omitted, other salt}.",
             "Differential: no hand-written expectation except that an omitted field must raise and that groups vary across ids and salts.", "3/C09"),
     "C10": (MC, "exhaustive weight-vector x unit table; oracle = non-empty intersection of exact position intervals per unit (implies monotonicity for every ordered pair of explored vectors)",
-            "Every unit of the id set is evaluated under all 1.2k (thorough 11k) weight vectors, relabelled groups and every return statement of all multi-return shapes with <=3 predicates; all observed groups of one unit must be explained by one hash position, the published one; two-group ramps are also compared pairwise.",
+            "Every unit of the id set is evaluated under all 1.2k (thorough 11k) weight vectors, relabelled and repeated-label groups (same entry whatever the labels), families up to 256 groups and every return statement of all multi-return shapes with <=3 predicates; all observed groups of one unit must be explained by one hash position, the published one; two-group ramps are also compared pairwise.",
             NOTE + "One grid point of slack per boundary.", "3/C10"),
     "C11": (MC, "explicit-state BFS over evaluator histories executed on real objects, canonical-state deduplication, invariant evaluated in every state",
             "new / recompile / call over 2 (3) slots and 7 texts (same name other weights, other trivia, other fields; lexically, syntactically and compile-time invalid), BFS until no new (model, implementation-fingerprint) state appears; after every transition every evaluator is probed on every input against a fresh evaluator of its last accepted text, every construction/recompile is re-issued (raise again / no-op). Plus: deep cyclic and bulk histories, 60+ twin pairs (texts a normalising or weak change detector / parse cache would confuse: crc32, md5-prefix, sha, adler32, FNV, length+sum collisions; differences only inside comment-looking regions, blanks, case, quote style, NFC form of a literal) recompiled on one evaluator with the reference model as oracle; replays fall back to forked children of a pristine process image when the library keeps module-level state.",
             "Acceptance of a text is what a fresh constructor does with it; hidden module-level state is part of the state key (measured).", "3/C11"),
     "C12": (MC, T_E,
-            "6 salts (absent, empty, ASCII, non-ASCII) x 40 declaration orders of 4 names x all values of the E-val alphabet x 4 weight vectors, plus 10k known answers of the position function, against md5/UTF-8/sorted-names/first-32-bits recomputed independently and the exact partition.",
+            "27 salts x 70 declaration orders x all values of the E-val alphabet (incl. tuples, lists, dicts, bytes, Fractions) x 4 weight vectors, the complete value families of mc/deepvals.py (all 1 112 064 Unicode scalar values, all strings <=3 over 14 hostile characters, int / float / length ladders; thorough x 3 salts x single / first / last splitter), all ordered pairs of a 70-value alphabet as two splitters, a host whose OpenSSL refuses MD5, plus 10k known answers of the position function, against md5/UTF-8/sorted-names/first-32-bits recomputed independently and the exact partition.",
             NOTE + "Alphabetical order is decided on lower-case ASCII names only.", "3/C12"),
     "C13": (MC, "bounded-exhaustive adversarial literal substitution; oracle = masked Python AST identity, constant equality, no new callee (sys.setprofile) while evaluating, sentinel never called",
-            "Every string of length <=3 (thorough <=4) over a 14-character adversarial alphabet plus 35 payloads (referencing a sentinel planted in builtins) in 6 literal positions x both quote styles x both code layouts.",
+            "Every string of length <=3 (thorough <=4) over a 14-character adversarial alphabet plus ~200 payloads (referencing a sentinel planted in builtins; the literal's own delimiter spelled as character reference / URL / MIME / UTF-7 / foreign escape; strings harvested from the generator's own source; long literals with an escape-needing character at every offset) in 7 literal positions, also after poison texts, x both quote styles x both code layouts.",
             "Contents not expressible in the DSL are skipped.", "3/C13"),
     "C14": (MC, T_E,
-            "All shapes with <=4 (<=6) predicates, all operator cases, identifier singles, nested tuples, role patterns, size family and weighted/salted programs x both layouts of generate_code: text executed stand-alone, callable named after the experiment, same outcome as ExperimentEvaluator(text) and the reference on every enumerated input.",
+            "All shapes with <=4 (<=6) predicates, all operator cases, identifier singles, nested tuples, role patterns, size family and weighted/salted programs x both layouts of generate_code: text executed stand-alone in a bare and in a module-like namespace (and, for a handful of programs and huge-int inputs, in a fresh interpreter that imported nothing else), callable named after the experiment, one evaluator recompiled through chains of token-kind / operator / layout twins compared with the module text of every step, same outcome as ExperimentEvaluator(text) and the reference on every enumerated input.",
             NOTE, "3/C14"),
     "C15": (MC, T_E,
-            "Every value of the E-val alphabet (str incl. non-ASCII/NUL/quotes/1e4 and 1e6 chars, ints to 10^4000, special floats, bool, None) as splitter, co-splitter and extra field x 11 salts (ASCII, non-ASCII, quote, backslash) x 3 weight vectors; the reference scheme's group is returned and same-str values share the bucket.",
+            "Every value of the E-val alphabet (str incl. non-ASCII/NUL/quotes/1e4 and 1e6 chars, ints to 10^4000, special floats, bool, None) as splitter, co-splitter and extra field x 27 salts x 3 weight vectors; the complete value families of mc/deepvals.py (every Unicode scalar value as a one-character id, every string <=3 over 14 hostile characters, int / float / length ladders incl. values next to 10^4298) and every code point of a range (thorough: the whole BMP) as a salt character; the reference scheme's group is returned and same-str values share the bucket.",
             NOTE + "Lone surrogates and ints beyond CPython's str() digit limit are outside the property's list.", "3/C15"),
     "C16": (MC, "exhaustive argument-space enumeration of the public choice function incl. enumerated environment answers of the random source and the MD5 seam",
-            "40 ids x list/tuple populations of mixed values (n in 1..64) x 1.2k (11k) weight vectors and their cumulative forms, boundary positions through the MD5 seam, all malformed combinations, the id-less branch with every boundary answer of random.random().",
+            "40 ids x list/tuple populations of mixed values (n in 1..64) x 1.2k (11k) weight vectors and their cumulative forms, boundary positions through the MD5 seam, extreme totals (1e-300 .. 2e307), weights that are ints beyond 2^53 / Fractions / bools, all malformed combinations incl. every empty-sequence case, 6 host environments, the id-less branch with every boundary answer of random.random().",
             "Seams: hashlib.md5 as seen by the binning module and random.random (effectiveness measured).", "3/C16"),
     "C17": (MC, "stateless exploration of thread interleavings of the real code under a controlled scheduler (sys.monitoring LINE/INSTRUCTION points + attribute hooks), preemption-bounded DFS, linearizability by brute force",
-            "Harnesses H1 (2-3 threads construct different texts, two with the same experiment name, sources with block comments), H2 (recompile vs calls), H3 (two recompiles of the same text then calls), H4 (recompiles of different texts); all interleavings of shared-evaluator accesses, and preemption bound 2 (thorough 3) at line points of the evaluator / wrapper modules; H5 (concurrent evaluation), H6_W (W sources compiled first: bounded caches), sequential epilogue after H4; thread-confinement of lexer/parser/codegen instances and module/class-level state are measured and break into an escalated exploration (line or strided function-entry points inside SLY, every schedule in a forked child of a pristine image); real Lock/RLock objects are replaced by scheduler-aware ones; the explorer is calibrated against TLC (thorough).",
+            "Harnesses H1 (2-3 threads construct different texts, two with the same experiment name, sources with block comments), H2 (recompile vs calls), H3 (two recompiles of the same text then calls), H4 (recompiles of different texts); all interleavings of shared-evaluator accesses, and preemption bound 2 (thorough 3) at line points of the evaluator / wrapper modules; H5 (concurrent evaluation), H6_W (W sources compiled first: bounded caches), H7 (a recompile refused after parsing vs. a recompile in another thread; deadlock detection), H1n (two sources nested deeper than anything compiled before, line points in the generator and the models), every single preemption between two bytecodes of the evaluator modules, function-entry points inside the vendored lexer / parser always on, sequential epilogue after H4; thread-confinement of lexer/parser/codegen instances and module/class-level state are measured and break into an escalated exploration (line or strided function-entry points inside SLY, every schedule in a forked child of a pristine image); real Lock/RLock objects are replaced by scheduler-aware ones; the explorer is calibrated against TLC (thorough).",
             "GIL: one bytecode is atomic; C-level state invisible. Not covered: >3 threads, free-threaded builds.", "3/C17"),
     "C18": ("exploration", "exhaustive sweep of a finite numeric grid with independent textbook formulas and statistics.NormalDist as oracle",
-            "n (38 values to 1e9) x p (41) x confidence (25, 1e-6..1-1e-12) x both methods; alpha on a dyadic grid of 2^15 (2^19) points plus the decades to 1e-300: lower<=upper, textbook equality, monotone in n and confidence, z symmetric and never below the true quantile, unknown method refused.",
+            "n (38 values to 1e9) x p (41) x confidence (25, 1e-6..1-1e-12) x both methods; alpha on a dyadic grid of 2^15 (2^19) points plus the decades to 1e-300: non-integer n, every call spelling x a value set shared by p and confidence executed forwards and backwards in one process, two threads at different confidence levels under the controlled scheduler: lower<=upper, textbook equality, monotone in n and confidence, z symmetric and never below the true quantile, unknown method refused.",
             "Tolerances derived from conditioning near alpha=1/2 (4 eps sqrt(pi/8) absolute).", "3/C18"),
 }
 
